@@ -259,7 +259,7 @@ def one_model(ctx, rng, k):
             ctx.monitor("reader_writer_interleavings")
             ctx.cover("interleaving:writer-paused-at:" + offset_class(n, L))
             ctx.case({"t": text, "f": "rw", "n": n}, True,
-                     {"fault": "reader runs while the writer is paused inside its cache write", "writer_paused_after_bytes": n, "cache_len": L} if ctx.cases < 1 else None)
+                     {"fault": "reader runs while the writer is paused inside its cache write", "writer_paused_after_bytes": n, "cache_len": L} if not ctx.samples else None)
             for who in ("reader", "writer"):
                 st, val = res.get(who, ("exc", "no result"))
                 if st != "ok":
@@ -278,7 +278,7 @@ def one_model(ctx, rng, k):
         def crash_at(n):
             clean_cache(folder)
             case = dict(base, fault="crash-during-write", offset=n)
-            ctx.case({"t": text, "f": "crash", "n": n}, True, {"fault": "crash during cache write", "after_bytes": n, "cache_len": L} if ctx.cases < 1 else None)
+            ctx.case({"t": text, "f": "crash", "n": n}, True, {"fault": "crash during cache write", "after_bytes": n, "cache_len": L} if not ctx.samples else None)
             with OpenPatch(folder, n) as op:
                 try:
                     api.transfer_model(folder, "M", {"cache": True})
